@@ -53,6 +53,8 @@ def mp_scenarios(tier):
     pick7 = {"d1||s2A from p1A", "d1||s1A from p1A", "d1||t1A from empty", "t1A||t2A from Aunref", "d1||d1 from p1A",
              "d1||xA from p1A", "s1A||s1A from empty", "s1A||t1A from Aunref", "t1A||t1B from empty", "s1A||xA from Aunref"}
     for s in c07.scenarios("quick" if tier == "quick" else "quick"):
+        if s.get("engine") == "L":
+            continue  # line-level pre-emption is about memory shared by threads of one process; forked processes share none
         if tier == "thorough" or s["name"] in pick7:
             s = dict(s, mode="mp", split=True)
             s["name"] += " [mp]"
@@ -60,6 +62,8 @@ def mp_scenarios(tier):
     pick12 = {"M1||M2 doc present", "M1||Da doc present", "Df||Da doc present", "M2||R doc present", "M1||DO doc present",
               "Da||DO doc present", "M1||M2 doc absent", "Da||Da doc present"}
     for s in c12.scenarios("quick"):
+        if s.get("engine") == "L":
+            continue
         if tier == "thorough" or s["name"] in pick12:
             s = dict(s, mode="mp", split=True)
             s["name"] += " [mp]"
